@@ -95,7 +95,8 @@ pub fn term(r: &mut Rng, cfg: &TermCfg, d: usize) -> Term {
         return atom(r);
     }
     let kids = |r: &mut Rng| -> Vec<Term> {
-        let n = 1 + r.below(cfg.max_arity);
+        // now and then a long component list (hash tables behave differently beyond a handful of entries)
+        let n = if r.chance(1, 15) { 5 + r.below(6) } else { 1 + r.below(cfg.max_arity) };
         let mut ks: Vec<Term> = (0..n).map(|_| term(r, cfg, d - 1)).collect();
         // a repeated component: unordered constructors drop it, ordered ones keep it
         if r.chance(1, 6) {
